@@ -8,6 +8,7 @@ func init() {
 	vRegister("H_C03_ProbeCursor", H_C03_ProbeCursor)
 	vRegister("H_C03_Detect", H_C03_Detect)
 	vRegister("H_C04_PingAck", H_C04_PingAck)
+	vRegister("H_C03_StreamPingName", H_C03_StreamPingName)
 	vRegister("H_C04_TruthfulSelfAlive", H_C04_TruthfulSelfAlive)
 }
 
@@ -256,4 +257,30 @@ func H_C04_TruthfulSelfAlive() {
 	vAssert(m.broadcasts.NumQueued() == 0, "c04.self-alive.nothing-gossiped")
 	vAssert(len(f.ev.log) == 0, "c04.self-alive.no-event")
 	vCover("c04.self-alive")
+}
+
+// C03/C19: the TCP fallback ping is only acknowledged by the member it names (a different member that took
+// over a crashed member's address must not keep the crashed name alive), and the ack carries the ping's number.
+func H_C03_StreamPingName() {
+	conf := vBaseConfig()
+	f := vNewML(conf)
+	f.vAddSelf(3, nil)
+	seq := vU32()
+	name := []string{vSelf, "", vPeerA}[vPick(3)]
+	buf, err := encode(pingMsg, &ping{SeqNo: seq, Node: name}, false)
+	vAssert(err == nil, "c03.tcp-ping.encode")
+	conn := &vConn{in: buf.Bytes(), frag: vPick(2)}
+	f.m.handleConn(conn)
+	if name == vPeerA {
+		vAssert(len(conn.out) == 0, "c03.tcp-ping.foreign-name-not-acked")
+		vCover("c03.tcp-ping.foreign")
+	} else {
+		vAssert(len(conn.out) > 1 && conn.out[0] == byte(ackRespMsg), "c03.tcp-ping.acked")
+		if len(conn.out) > 1 {
+			var a ackResp
+			vAssert(decode(conn.out[1:], &a) == nil && a.SeqNo == seq, "c03.tcp-ping.ack-seq")
+		}
+		vCover("c03.tcp-ping.own")
+	}
+	vAssert(conn.closed >= 1, "c03.tcp-ping.closed")
 }
